@@ -263,8 +263,10 @@ func processorScenario(kind string, n int, c int) *explore.Scenario {
 		switch kind {
 		case "command":
 			p, err := cqrs.NewCommandProcessorWithConfig(r, cqrs.CommandProcessorConfig{
-				GenerateSubscribeTopic:   func(cqrs.CommandProcessorGenerateSubscribeTopicParams) (string, error) { return "topic", nil },
-				SubscriberConstructor:    func(p cqrs.CommandProcessorSubscriberConstructorParams) (message.Subscriber, error) { return mkSub(p.HandlerName), nil },
+				GenerateSubscribeTopic: func(cqrs.CommandProcessorGenerateSubscribeTopicParams) (string, error) { return "topic", nil },
+				SubscriberConstructor: func(p cqrs.CommandProcessorSubscriberConstructorParams) (message.Subscriber, error) {
+					return mkSub(p.HandlerName), nil
+				},
 				Marshaler:                m,
 				AckCommandHandlingErrors: flag,
 			})
@@ -283,9 +285,11 @@ func processorScenario(kind string, n int, c int) *explore.Scenario {
 		case "event":
 			p, err := cqrs.NewEventProcessorWithConfig(r, cqrs.EventProcessorConfig{
 				GenerateSubscribeTopic: func(cqrs.EventProcessorGenerateSubscribeTopicParams) (string, error) { return "topic", nil },
-				SubscriberConstructor:  func(p cqrs.EventProcessorSubscriberConstructorParams) (message.Subscriber, error) { return mkSub(p.HandlerName), nil },
-				Marshaler:              m,
-				AckOnUnknownEvent:      flag,
+				SubscriberConstructor: func(p cqrs.EventProcessorSubscriberConstructorParams) (message.Subscriber, error) {
+					return mkSub(p.HandlerName), nil
+				},
+				Marshaler:         m,
+				AckOnUnknownEvent: flag,
 			})
 			setupErr = err
 			for i, t := range registry {
@@ -302,9 +306,11 @@ func processorScenario(kind string, n int, c int) *explore.Scenario {
 		case "group":
 			p, err := cqrs.NewEventGroupProcessorWithConfig(r, cqrs.EventGroupProcessorConfig{
 				GenerateSubscribeTopic: func(cqrs.EventGroupProcessorGenerateSubscribeTopicParams) (string, error) { return "topic", nil },
-				SubscriberConstructor:  func(p cqrs.EventGroupProcessorSubscriberConstructorParams) (message.Subscriber, error) { return mkSub("group"), nil },
-				Marshaler:              m,
-				AckOnUnknownEvent:      flag,
+				SubscriberConstructor: func(p cqrs.EventGroupProcessorSubscriberConstructorParams) (message.Subscriber, error) {
+					return mkSub("group"), nil
+				},
+				Marshaler:         m,
+				AckOnUnknownEvent: flag,
 			})
 			setupErr = err
 			var hs []cqrs.GroupEventHandler
